@@ -142,7 +142,14 @@ func runPrefixHistory(c *Ctx, hi int, pl pfxPool, nmsgs int, script []pfxScript)
 	var hook *prefix.Handler
 	if hi%2 == 1 {
 		var err error
-		h6, err = prefix.Plugin.Setup6(pl.cidr, fmt.Sprint(pl.page))
+		sizeArg := fmt.Sprint(pl.page)
+		switch hi % 8 { // the allocation length as an operator may write it: a decimal number however it is padded or signed
+		case 3:
+			sizeArg = fmt.Sprintf("%03d", pl.page)
+		case 7:
+			sizeArg = fmt.Sprintf("+%d", pl.page)
+		}
+		h6, err = prefix.Plugin.Setup6(pl.cidr, sizeArg)
 		if err != nil {
 			c.Violate("harness-setup", "prefix Setup6 failed: "+err.Error(), nil)
 			return
